@@ -149,8 +149,8 @@ def canon_exc(e: BaseException) -> str:
     if name == "AttributeError":
         return "attribute"
     if name == "RuntimeError":
-        for needle, kind in (("twice", "twice"), ("nused", "unused"), ("still running", "stillRunning"),
-                             ("job failed", "failed"), ("not available", "notAvailable")):
+        for needle, kind in (("job failed", "failed"), ("twice", "twice"), ("nused", "unused"),
+                             ("still running", "stillRunning"), ("not available", "notAvailable")):
             if needle in text:
                 return kind
         return "runtime?"
